@@ -124,7 +124,7 @@ func TestC38(t *testing.T) {
 	// NOTE under -race the repository's JSON encoder (sonic) encodes every
 	// value twice at each nesting level; every new proposal/operation costs
 	// 0.1-0.9 s of CPU, so rounds are few.
-	rounds := r.N(48, 600)
+	rounds := r.N(48, 480)
 	r.WithWatchdog(time.Duration(r.N(20, 120))*time.Minute, "C38 workload", func() {
 		vlib.Parallel(rounds, workers, func(ri int) {
 			sl := <-slots
